@@ -3,12 +3,12 @@
    (7baf630 c9f204c d6f86b5, and 94e2701 for the option order); their witnesses stay in
    corpus/C11, corpus/C12 as regression cases.  What remains here are the non-vacuity
    examples of the theorems. *)
-From PV Require Import Base.Prelude Model.DHCP Model.DHCPShow Spec.DHCP Spec.DHCPCheck Proofs.DHCP.
+From PV Require Import Base.Prelude Model.DHCP Model.DHCPShow Spec.DHCP Spec.DHCPCheck Proofs.DHCP Proofs.DHCPInv Proofs.DHCPReply.
 Open Scope N_scope.
 
 (* home 192.168.0.0/28, host .9, router .1, netfilter .8/29, secondary mode *)
 Definition wcfg : cfg :=
-  mkCfg 2 3232235529 366503875925 3232235521 439804651110 3232235520 28 3232235529 29 134743044.
+  fresh_cfg 2 3232235529 366503875925 3232235521 439804651110 3232235520 28 3232235529 29 134743044.
 Definition c1 : mac := 2199023255553.
 Definition c2 : mac := 2199023255554.
 Definition c3 : mac := 2199023255555.
@@ -60,3 +60,6 @@ Lemma expired_example :
       (trace wcfg (init wcfg) (with_ch0 wexp))
   = [(false, Some ROffer); (false, Some RAck); (false, None); (true, Some RNak)].
 Proof. vm_compute. reflexivity. Qed.
+
+Lemma wcfg_ok : cfg_ok wcfg.
+Proof. split; [apply (sub_ok_wanted _)|reflexivity]. Qed.
